@@ -123,9 +123,14 @@ class FakeNet:
         return None
 
     def reset_faults(self):
+        """faults stop; the peer is reachable again.  TCP connections the client closed while the peer was unreachable
+        have timed out on the peer's side by now."""
         self.fault = None
         self.vanished = False
         self.io_ops = 0
+        for s in self.sockets:
+            if s.closed and s.conn is not None and not getattr(s.conn, "closed", True):
+                s.conn.client_closed()
 
 
 class FakeOSSocket:
@@ -142,6 +147,7 @@ class FakeOSSocket:
         self.udp_rx = []
         self.sent_total = 0
         self.recv_calls = 0
+        self.on_drained = None    # callback once everything in flight has been read by the client
 
     # -- plumbing ---------------------------------------------------------------------------------------
     def settimeout(self, t):
@@ -220,8 +226,11 @@ class FakeOSSocket:
             raise ConnectionResetError(104, "Connection reset by peer")
         if f is not None:
             self.rx.clear()  # the in-flight reply is lost with the fault (no stale replies later)
+            self.on_drained = None
             if f.kind == "recv-eof":
                 self.peer_closed = True
+                if self.conn is not None and hasattr(self.conn, "peer_initiated_close"):
+                    self.conn.peer_initiated_close()
                 return b""
             raise (f.exc or _real.timeout("timed out"))
         if not self.rx:
@@ -231,6 +240,9 @@ class FakeOSSocket:
         n = self.net.schedule.recv_size(self, bufsize, len(self.rx))
         out = bytes(self.rx[:n])
         del self.rx[:n]
+        if not self.rx and self.on_drained is not None:
+            cb, self.on_drained = self.on_drained, None
+            cb()
         return out
 
     def sendto(self, data, addr):
